@@ -68,6 +68,7 @@ type zoneRun struct {
 	hung       bool
 	opens      int64
 	posOK      bool
+	syntaxErr  bool // the error is a *dns.ParseError (syntax errors carry a position; I/O errors of an include target need not)
 	allocBytes uint64
 	elapsed    time.Duration
 }
@@ -122,6 +123,7 @@ func runHostile(text string, allowInclude bool, withFS bool, origin string, meas
 			}
 			if pe, ok := err.(*dns.ParseError); ok {
 				_ = pe
+				zr.syntaxErr = true
 			}
 			zr.posOK = strings.Contains(zr.errText, "hostile.db") || strings.Contains(zr.errText, "self.db") || strings.Contains(zr.errText, "x") || strings.Contains(zr.errText, "passwd")
 		}
@@ -179,7 +181,7 @@ func runC07(c *Ctx) {
 		if zr.errText != "" {
 			c.Hit("zone:error")
 			c.Pred("hostile", "error-sticky", in, zr.afterErr == 0 && zr.errStable, fmt.Sprint(zr.afterErr, " records after the error; stable=", zr.errStable), "none", nt)
-			c.Pred("hostile", "error-has-position", in, strings.Contains(zr.errText, "line:") || strings.Contains(zr.errText, "failed to open"), zr.errText, "file / line / column", nt)
+			c.Pred("hostile", "error-has-position", in, !zr.syntaxErr || strings.Contains(zr.errText, "line:") || strings.Contains(zr.errText, "failed to open"), zr.errText, "file / line / column", nt)
 		} else {
 			c.Hit("zone:clean")
 		}
